@@ -40,7 +40,14 @@ def c14_extra(tier, seed, harness, problems, stats, build_harness):
         races = err.count("WARNING: DATA RACE")
         if races or p.returncode == 66:
             first = err[err.find("WARNING: DATA RACE"):][:2500] if races else err[-1500:]
-            problems.append({"kind": "race", "detail": "seed %d: %d race report(s), exit code %d\n%s" % (s, races, p.returncode, first)})
+            # the round (or fresh-name trial) the first report belongs to: the next "c14race: end of round ..." line
+            # below it, or the last "c14race: fresh-name trial" line above it
+            at = err.find("WARNING: DATA RACE") if races else -1
+            rnd = re.search(r"^c14race: end of (round .*)$", err[at:], re.M) if at >= 0 else None
+            trial = [l for l in err[:max(at, 0)].splitlines() if l.startswith("c14race: fresh-name trial")]
+            where = ("in " + trial[-1][9:]) if trial else (("in " + rnd.group(1)[:2000]) if rnd else "")
+            problems.append({"kind": "race", "detail": "seed %d: %d race report(s), exit code %d; replay: harness-race c14race %d %d; first report %s\n%s" % (
+                s, races, p.returncode, s, rounds, where, first)})
         mism = [l for l in out.splitlines() if l.startswith("MISMATCH ")]
         if mism:
             problems.append({"kind": "sc-mismatch", "detail": "seed %d: %s" % (s, mism[0][:2500])})
